@@ -1137,7 +1137,7 @@ func (g *gen) writeStructPrivateImpl(b *buffer, n *a.Struct) error {
 
 				} else if o.Effect().Coroutine() {
 					k := g.funks[o.QQID()]
-					if k.coroSuspPoint == 0 {
+					if k.coroSuspPoint == 0 && !k.usesCoroResumed {
 						continue
 					}
 					if needEmptyLine {
